@@ -409,6 +409,17 @@ def chk_extent(case, acc, seed):
     if bb != box(A | B):
         neg = 'negative-only' if (box(A | B)[1] < 0 or box(A | B)[3] < 0) else 'general'
         acc.violation(f'boundary:{neg}', case, f'field.boundary={bb} != {box(A | B)}')
+    # any iterable of fields, not only a list or tuple
+    for kind, make in (('list', lambda: [fa, fb]), ('generator', lambda: (f for f in (fa, fb))), ('iterator', lambda: iter([fa, fb])),
+                       ('map', lambda: map(lambda f: f, [fb, fa])), ('dict-values', lambda: {1: fa, 2: fb}.values())):
+        try:
+            bk = tuple(int(x) for x in lf.boundary(make()))
+        except Exception as e:
+            acc.violation(f'boundary:iterable:{kind}:raises:{type(e).__name__}', dict(case, iterable=kind), repr(e))
+            continue
+        if bk != box(A | B):
+            acc.violation(f'boundary:iterable:{kind}', dict(case, iterable=kind), f'field.boundary(<{kind}>)={bk} != {box(A | B)}')
+    acc.cls('boundary:iterables')
     if bool(lf.overlap((fa, fb))) != bool(I):
         acc.violation('extent:overlap', case, f'overlap={lf.overlap((fa, fb))} sets share {len(I)}')
     b1 = tuple(int(x) for x in lf.boundary((fa,)))
